@@ -236,6 +236,41 @@ fn crafted() -> Vec<(String, Vec<u8>)> {
             v.push((format!("crafted:maxgroup_{}bits_align{align}", if sym == 39 { 58 } else { 57 }), w.finish()));
         }
     }
+    // colour-indexed images at the extreme widths (libwebp's encoder stops at 16383, the format
+    // and both decoders go to 16384): every pixel-packing width (1, 2, 4 bits and unpacked), the
+    // colour table delta-coded with single-symbol codes, the packed indices alternating between
+    // two byte values (one bit per packed pixel)
+    for (wd, ht) in [(16384u32, 1u32), (16384, 2), (16383, 1), (16383, 2), (16381, 1), (8192, 3), (13, 2)] {
+        for (ncol, ga, gb) in [(2u32, 0x5au32, 0xc3u32), (3, 0x24, 0x92), (4, 0x1b, 0xe4), (5, 0x43, 0x10), (16, 0x5a, 0xc3), (17, 3, 16)] {
+            let mut w = BitW::new();
+            w.header(wd, ht, true);
+            w.put(1, 1); // transform present
+            w.put(3, 2); // colour indexing
+            w.put(u64::from(ncol - 1), 8);
+            // colour table sub-image ncol x 1: no cache, five single-symbol codes => entry i = (i+1) * delta
+            w.put(0, 1);
+            w.simple1(7); // green delta
+            w.simple1(3); // red delta
+            w.simple1(5); // blue delta
+            w.simple1(15); // alpha delta
+            w.simple1(0); // distance
+            w.put(0, 1); // no further transform
+            w.put(0, 1); // no colour cache
+            w.put(0, 1); // no meta prefix codes
+            w.simple2(ga.min(gb), ga.max(gb)); // green = packed indices
+            w.simple1(0);
+            w.simple1(0);
+            w.simple1(0);
+            w.simple1(0);
+            let per = if ncol <= 2 { 8 } else if ncol <= 4 { 4 } else if ncol <= 16 { 2 } else { 1 };
+            let packed = (wd + per - 1) / per;
+            for k in 0..u64::from(packed * ht) {
+                w.put((k ^ (k >> 3) ^ (k >> 7)) & 1, 1);
+            }
+            w.put(0, 64);
+            v.push((format!("crafted:palette{ncol}_{wd}x{ht}"), w.finish()));
+        }
+    }
     v
 }
 
